@@ -13,7 +13,10 @@ CHECKS = {
  "C16": dict(
     text="PROOF of the block-structured restore discipline (coq/props/C16.v: every tree of with-blocks/decorated calls over the "
          "three settings, any nesting, any raising position, restores all settings; a block restores its own setting even if the "
-         "body calls the global setters; exceptions propagate unchanged) + per-run CORRESPONDENCE of the model with the real "
+         "body calls the global setters; exceptions propagate unchanged; frame: a block touches no other setting; after any completed scoped "
+         "prefix inside a block the block's settings are in force again; on exception-free programs managers without try/finally are "
+         "indistinguishable from the protected ones - why the suite could not see the defect - and with a raising body they restore "
+         "nothing) + per-run CORRESPONDENCE of the model with the real "
          "context managers on random block histories (states after every event, outcome) + direct oracle on the implementation "
          "(setting at block exit == setting at entry; behaviour follows the setting).",
     note=TB + "Modelled, not verified: contextlib's generator protocol (with/decorator forms treated as the same block).",
@@ -94,7 +97,9 @@ CHECKS = {
  "C12": dict(
     text="PROOF (coq/props/C12.v): build restores the name of every Var the caller holds on every outcome, also when one Var is "
          "listed under several names (save-once invariant; refutation of the pinned tree's overwrite-save); only reachable nodes are "
-         "emitted (nothing constructed earlier can show up). CORRESPONDENCE: every build of random histories over a shared pool vs "
+         "emitted (nothing constructed earlier can show up); during a build each listed Var carries a requested name and no other Var is "
+         "renamed; ANY history of builds (succeeding or failing, any inputs) restores every name, hence the names a later build works with "
+         "are those of a fresh process (StoreFacts2.v, induction over the history). CORRESPONDENCE: every build of random histories over a shared pool vs "
          "the model. ORACLE: snapshots of name/type/value of every reachable Var and of inlined model bytes around each step, "
          "byte-identical rebuilds, and the same histories in fresh processes under 4 PYTHONHASHSEEDs / prior allocations.",
     note=TB + "Address and hash-seed independence of the real code is established by execution, not proof.",
